@@ -2,7 +2,8 @@
 """Generates MANIFEST.json from props.json (the single table the driver also reads)."""
 import json, os, subprocess
 ROOT = os.path.dirname(os.path.abspath(__file__))
-props = json.load(open(os.path.join(ROOT, "props.json")))
+import glob
+props = {os.path.basename(f)[:-5]: json.load(open(f)) for f in glob.glob(os.path.join(ROOT, "props", "C*.json"))}
 allids = [json.loads(l)["id"] for l in open(os.path.join(ROOT, "properties.jsonl"))]
 na = json.load(open(os.path.join(ROOT, "not_applicable.json"))) if os.path.exists(os.path.join(ROOT, "not_applicable.json")) else {}
 hooks = []
